@@ -1146,6 +1146,81 @@ func c02DeadNonceKeys(c *core.Ctx) {
 		})
 	}
 	c.Floor("R2.11", "dead-nonce insertions in the forwarding thread", nIns, 3)
+	// R2.11b the key of a dead-nonce record identifies the PAIR (name, nonce): it is not an
+	// arithmetic combination of the name hash and the nonce (their sum collides whenever
+	// two name hashes differ by less than 2^32: the first Interest for one name is dropped
+	// as dead because an Interest for another name is)
+	{
+		nKey, badKey := 0, ""
+		for _, fn := range p.FuncsIn(core.ModPath + "/fw/table") {
+			if strings.HasSuffix(p.File(fn.Pos()), "_test.go") || !strings.Contains(core.FuncName(fn), "DeadNonceList") {
+				continue
+			}
+			core.Instrs(fn, func(in ssa.Instruction) {
+				var key ssa.Value
+				switch x := in.(type) {
+				case *ssa.Lookup:
+					if _, ok := core.FieldOf(x.X, "list"); ok {
+						key = x.Index
+					}
+				case *ssa.MapUpdate:
+					if _, ok := core.FieldOf(x.Map, "list"); ok {
+						key = x.Key
+					}
+				}
+				if key == nil {
+					return
+				}
+				nKey++
+				if b, isB := core.StripConv(key).(*ssa.BinOp); isB {
+					switch b.Op {
+					case token.ADD, token.XOR, token.OR, token.SUB, token.MUL:
+						badKey = core.FuncName(fn) + " at " + c.Pos(in)
+					}
+				}
+			})
+		}
+		c.Decide(badKey == "", "R2.11", "dead-nonce-key-is-the-pair", "-", fmt.Sprintf("%d accesses to the dead-nonce map, none keyed by an arithmetic mix of name hash and nonce", nKey), "the Dead Nonce List keys a record by an arithmetic combination of the name hash and the nonce ("+badKey+"): different (name, nonce) pairs share a record whenever the hashes differ by less than 2^32 — the first Interest for one name, with a fresh nonce, is dropped as dead because an Interest for another name was recorded")
+		c.Floor("R2.11", "accesses to the dead-nonce map", nKey, 2)
+	}
+	// R2.14 "best-route uses the lowest-cost usable next hop": a next hop is excluded
+	// because of an in-record of its face only while that in-record is unexpired — the
+	// admission of a next hop is reachable over an edge asserting that the record's
+	// expiration time is not after now
+	if pii := c.Fn("R2.14", "fw/fw", "Thread", "processIncomingInterest"); pii != nil {
+		var admits []ssa.Instruction
+		core.Instrs(pii, func(in ssa.Instruction) {
+			if cl, ok := isBuiltinCall(in, "append"); ok && core.InLoop(cl.Block()) {
+				if sl, isS := cl.Type().Underlying().(*types.Slice); isS {
+					if pt, isP := sl.Elem().Underlying().(*types.Pointer); isP {
+						if nt, isN := pt.Elem().(*types.Named); isN && nt.Obj().Name() == "FibNextHopEntry" {
+							admits = append(admits, in)
+						}
+					}
+				}
+			}
+		})
+		alive := &core.Atom{Name: "in-record expiration is after now", Match: func(cond ssa.Value) (int, int) {
+			return timeAfterStrict(cond, func(v ssa.Value) bool {
+				_, path := core.FieldPath(v)
+				return len(path) > 0 && path[len(path)-1] == "ExpirationTime"
+			}, func(v ssa.Value) bool { return isTimeNow(v) })
+		}}
+		via := false
+		for _, f := range core.EdgeFacts(pii, alive) {
+			if f.Holds {
+				continue
+			}
+			for _, a := range admits {
+				if core.ReachInstrFrom(core.Point{Block: f.E.To, Idx: 0}, a, nil, nil) != nil || f.E.To == a.Block() {
+					via = true
+				}
+			}
+		}
+		if len(admits) > 0 {
+			c.Decide(via, "R2.14", "expired-in-record-does-not-exclude-its-face", p.Pos(pii.Pos()), "a next hop whose face has an in-record is admitted again once that record has expired", "processIncomingInterest excludes every next hop whose face has an in-record, expired or not; expired in-records stay while other consumers keep the PIT entry alive, so a face whose own Interest expired long ago stays unusable: a retransmission past the suppression interval is not forwarded when that face is the only next hop, and best-route picks a costlier one otherwise")
+		}
+	}
 	if pid := c.Fn("R2.12", "fw/fw", "Thread", "processIncomingData"); pid != nil {
 		nLoop, bad := 0, ""
 		core.InstrsDeep(pid, func(in ssa.Instruction) {
